@@ -32,6 +32,7 @@ func families(tier string) []fw.Family {
 			familySingle("PDF, vertical text whose runs turn between upright (CJK) and sideways (Latin) up to four times x 3 fonts x the 5 vertical layouts x SubsetFonts on/off", mixedOrientationStrings, []int{4, 5, 8, 9, 10}, both),
 			familySingle(fmt.Sprintf("PDF, faux italic faces: %d strings of at most 4 tokens x 3 fonts x {NewTextLine, VerticalRL sideways, VerticalLR sideways with face offsets under a rotating view, VerticalRL upright} x SubsetFonts on", len(strs)), strs, italicKinds, []bool{true}),
 			familyPairs("PDF, two texts", pairStrings, both),
+			familyFeaturePairs(),
 			familyReuse("PDF, one font object for two documents in a row", pairStrings),
 			familyWidthRuns(0),
 		}
@@ -54,6 +55,7 @@ func families(tier string) []fw.Family {
 		familySingle("PDF, vertical text whose runs turn between upright (CJK) and sideways (Latin) up to four times x 3 fonts x the 5 vertical layouts x SubsetFonts on/off", mixedOrientationStrings, []int{4, 5, 8, 9, 10}, both),
 		familySingle(fmt.Sprintf("PDF, faux italic faces: %d strings of at most 2 tokens x 3 fonts x {NewTextLine, VerticalRL sideways, VerticalLR sideways with face offsets under a rotating view, VerticalRL upright} x SubsetFonts on", len(strs2)), strs2, italicKinds, []bool{true}),
 		familyPairs("PDF, two texts", pairStrings[:3], both),
+		familyFeaturePairs(),
 		familyReuse("PDF, one font object for two documents in a row", pairStrings[:3]),
 		familyWidthRuns(0),
 	}
